@@ -6,16 +6,28 @@ From GoPdf.Base Require Import Res.
 From GoPdf.C11 Require Import Copier Checker Spec CopierLemmas CopierProofs History.
 Import ListNotations.
 
-(* v is the renamed argument of one of the calls, or a reference to an object
-   the caller has itself written earlier in the history *)
+(* v is the renamed argument of one of the copy calls, or a reference to an
+   object the caller has itself written to the target earlier in the history
+   (with Put, or as the replacement given to Redirect) *)
 Definition from_call (src : source) (tr : tr_map) (ops : list hop) (own : list ref) (v : obj) : Prop :=
-  (exists c, In (HCall c) ops /\ renamed src tr (call_obj c) v) \/ (exists t, v = ORef t /\ In t own).
+  (exists c, In (HCall c) ops /\ is_copy_op (HCall c) = true /\ renamed src tr (call_obj c) v)
+  \/ (exists t, v = ORef t /\ In t own).
+
+Definition calls_of (ops : list hop) : list call :=
+  flat_map (fun op => match op with HCall c => [c] | HPut _ => [] end) ops.
+
+(* Redirect only for references that have no translation yet *)
+Definition hist_fresh (src : source) (fuel : nat) (ops : list hop) (h0 : hstate) : Prop :=
+  forall ops1 s m ops2, ops = ops1 ++ HCall (CRedirect s m) :: ops2 ->
+    forall h1, run_hist src fuel ops1 h0 = Ok h1 -> lookup s (trans (hst h1)) = None.
+
+Definition written (h : hstate) : list ref := map fst (hputs h) ++ map fst (puts (hst h)).
 
 Definition hist_values_stmt : Prop :=
   forall src fuel ops next0 h,
     run_hist src fuel ops (hinit next0) = Ok h ->
-    forallb is_copy_op ops = true ->
-    forall t v, In (t, v) (hputs h) -> from_call src (trans (hst h)) ops (map fst (hputs h)) v.
+    hist_fresh src fuel ops (hinit next0) ->
+    forall t v, In (t, v) (hputs h) -> from_call src (trans (hst h)) ops (written h) v.
 
 Lemma inv_bump src R X st : inv src R X st -> inv src R X (mkState (trans st) (next st + 1)%N (puts st)).
 Proof.
@@ -23,72 +35,118 @@ Proof.
   intros s t H. apply h4 in H. lia.
 Qed.
 
+Lemma redirected_app a b : redirected (a ++ b) = redirected a ++ redirected b.
+Proof.
+  induction a as [|c a IH]; [reflexivity|]. destruct c; cbn [app redirected]; try exact IH. now rewrite IH.
+Qed.
+
+Lemma calls_of_app a b : calls_of (a ++ b) = calls_of a ++ calls_of b.
+Proof. unfold calls_of. apply flat_map_app. Qed.
+
+Lemma redirect_result src fuel s m st r st' :
+  run_call src fuel (CRedirect s m) st = Ok (r, st') -> exists t, r = ORef t /\ In t (map fst (puts st')).
+Proof.
+  cbn [run_call]. destruct (alloc_ok st); [|discriminate]. destruct (has (next st) (puts st)); [discriminate|].
+  intros [= <- <-]. exists (next st). split; [reflexivity|]. cbn [puts map fst]. now left.
+Qed.
+
 Section Hist.
   Variable src : source.
   Variable fuel : nat.
 
-  Definition own (h : hstate) : list ref := map fst (hputs h).
-
   Definition hinv (seen : list hop) (h : hstate) : Prop :=
-    inv src [] [] (hst h) /\
-    (forall v, In v (hres h) -> from_call src (trans (hst h)) seen (own h) v) /\
-    (forall t v, In (t, v) (hputs h) -> from_call src (trans (hst h)) seen (own h) v).
+    (exists R, (forall x, In x R <-> In x (redirected (calls_of seen))) /\ inv src R [] (hst h)) /\
+    (forall v, In v (hres h) -> from_call src (trans (hst h)) seen (written h) v) /\
+    (forall t v, In (t, v) (hputs h) -> from_call src (trans (hst h)) seen (written h) v).
 
   Lemma from_call_mono tr tr' seen seen' o o' v :
     tr_le tr tr' -> incl seen seen' -> incl o o' -> from_call src tr seen o v -> from_call src tr' seen' o' v.
   Proof.
-    intros Hle Hi Ho [[c [Hin Hr]]|[t [-> Hin]]].
-    - left. exists c. split; [now apply Hi|eapply renamed_mono; eassumption].
+    intros Hle Hi Ho [[c [Hin [Hc Hr]]]|[t [-> Hin]]].
+    - left. exists c. split; [now apply Hi|split; [exact Hc|eapply renamed_mono; eassumption]].
     - right. exists t. split; [reflexivity|now apply Ho].
   Qed.
 
-  Lemma hop_step seen op h h1 :
-    run_hop src fuel op h = Ok h1 -> is_copy_op op = true -> hinv seen h -> hinv (seen ++ [op]) h1.
+  Lemma puts_keys_mono st st' t : st_le st st' -> In t (map fst (puts st)) -> In t (map fst (puts st')).
   Proof.
-    intros H Hc [Hi [Hres Hput]]. destruct op as [c|i]; cbn [run_hop] in H.
+    intros [_ [_ Hp]] Hin. apply in_map_iff in Hin. destruct Hin as [[t0 v] [<- Hin]]. cbn [fst].
+    destruct (lookup t0 (puts st)) as [v0|] eqn:E.
+    - eapply lookup_has. apply Hp. exact E.
+    - exfalso. eapply lookup_None_notin; [exact E|]. change t0 with (fst (t0, v)). now apply in_map.
+  Qed.
+
+  Lemma hop_step seen op h h1 :
+    run_hop src fuel op h = Ok h1 ->
+    (forall s m, op = HCall (CRedirect s m) -> lookup s (trans (hst h)) = None) ->
+    hinv seen h -> hinv (seen ++ [op]) h1.
+  Proof.
+    intros H Hf [[R [HR Hi]] [Hres Hput]]. destruct op as [c|i]; cbn [run_hop] in H.
     - destruct (run_call src fuel c (hst h)) as [[r st']|e] eqn:E; [|discriminate]. injection H as <-.
-      unfold own. cbn [hst hres hputs].
-      assert (Hspec : inv src [] [] st' /\ st_le (hst h) st' /\ renamed src (trans st') (call_obj c) r).
-      { destruct c as [r0|o|s m]; cbn [run_call call_obj is_copy_op] in *; [| |discriminate];
-          apply (copy_obj_spec src fuel [] [] _ _ _ _ E Hi). }
-      destruct Hspec as [Hi' [[Hle _] Hr]].
+      unfold written. cbn [hst hres hputs].
+      destruct (run_call_spec src fuel c R _ _ _ E Hi) as [Hi' [Hle Hr]].
+      { intros s m ->. eapply Hf. reflexivity. }
       assert (Hinc : incl seen (seen ++ [HCall c])) by (intros x Hx; apply in_or_app; now left).
-      split; [exact Hi'|split].
+      assert (Hw : incl (map fst (hputs h) ++ map fst (puts (hst h))) (map fst (hputs h) ++ map fst (puts st'))).
+      { intros x Hx. apply in_app_or in Hx. apply in_or_app. destruct Hx as [Hx|Hx]; [now left|right].
+        eapply puts_keys_mono; eassumption. }
+      split; [|split].
+      + exists (redirected [c] ++ R). split; [|exact Hi'].
+        intros x. rewrite calls_of_app, redirected_app. cbn [calls_of flat_map app]. rewrite ?app_nil_r.
+        rewrite !in_app_iff, HR. tauto.
       + intros v Hin. apply in_app_or in Hin. destruct Hin as [Hin|[<-|[]]].
-        * eapply from_call_mono; [exact Hle|exact Hinc|apply incl_refl|now apply Hres].
-        * left. exists c. split; [apply in_or_app; right; now left|exact Hr].
-      + intros t v Hin. eapply from_call_mono; [exact Hle|exact Hinc|apply incl_refl|exact (Hput t v Hin)].
+        * eapply from_call_mono; [apply Hle|exact Hinc|exact Hw|now apply Hres].
+        * destruct c as [r0|o|s m]; cbn [call_result_ok] in Hr.
+          -- left. exists (CCopyRef r0). split; [apply in_or_app; right; now left|split; [reflexivity|exact Hr]].
+          -- left. exists (CCopy o). split; [apply in_or_app; right; now left|split; [reflexivity|exact Hr]].
+          -- destruct (redirect_result _ _ _ _ _ _ _ E) as [t [-> Hin]].
+             right. exists t. split; [reflexivity|]. apply in_or_app. now right.
+      + intros t v Hin. eapply from_call_mono; [apply Hle|exact Hinc|exact Hw|exact (Hput t v Hin)].
     - destruct (nth_error (hres h) i) as [v|] eqn:En; [|discriminate].
       destruct (alloc_ok (hst h)); [|discriminate].
       destruct (has (next (hst h)) (puts (hst h)) || has (next (hst h)) (hputs h)); [discriminate|].
-      injection H as <-. unfold own in *. cbn [hst hres hputs trans map fst].
+      injection H as <-. unfold written in *. cbn [hst hres hputs trans puts map fst].
       assert (Hinc : incl seen (seen ++ [HPut i])) by (intros x Hx; apply in_or_app; now left).
-      assert (Hown : incl (map fst (hputs h)) (next (hst h) :: map fst (hputs h))) by (intros x Hx; now right).
-      split; [now apply inv_bump|split].
+      assert (Hown : incl (map fst (hputs h) ++ map fst (puts (hst h)))
+                          ((next (hst h) :: map fst (hputs h)) ++ map fst (puts (hst h)))).
+      { intros x Hx. apply in_app_or in Hx. apply in_or_app. destruct Hx as [Hx|Hx]; [left; now right|now right]. }
+      split; [|split].
+      + exists R. split; [|now apply inv_bump].
+        intros x. rewrite calls_of_app. cbn [calls_of flat_map app]. rewrite ?app_nil_r. apply HR.
       + intros v0 Hin. apply in_app_or in Hin. destruct Hin as [Hin|[<-|[]]].
         * eapply from_call_mono; [apply tr_le_refl|exact Hinc|exact Hown|now apply Hres].
-        * right. exists (next (hst h)). split; [reflexivity|now left].
+        * right. exists (next (hst h)). split; [reflexivity|]. apply in_or_app. left. now left.
       + intros t v0 [[= <- <-]|Hin].
         * apply nth_error_In in En. eapply from_call_mono; [apply tr_le_refl|exact Hinc|exact Hown|now apply Hres].
         * eapply from_call_mono; [apply tr_le_refl|exact Hinc|exact Hown|exact (Hput t v0 Hin)].
   Qed.
 
-  Lemma hist_run : forall ops seen h h',
-    run_hist src fuel ops h = Ok h' -> forallb is_copy_op ops = true -> hinv seen h -> hinv (seen ++ ops) h'.
+  Lemma run_hist_snoc : forall seen h0 h op h1,
+    run_hist src fuel seen h0 = Ok h -> run_hop src fuel op h = Ok h1 -> run_hist src fuel (seen ++ [op]) h0 = Ok h1.
   Proof.
-    induction ops as [|op ops IH]; intros seen h h' H Hc Hi; cbn [run_hist] in H.
+    induction seen as [|o seen IH]; intros h0 h op h1 H H1; cbn [run_hist app] in *.
+    - injection H as <-. now rewrite H1.
+    - destruct (run_hop src fuel o h0) as [h2|e]; [|discriminate]. eapply IH; eassumption.
+  Qed.
+
+  Lemma hist_run h0 : forall ops seen h h',
+    run_hist src fuel seen h0 = Ok h ->
+    run_hist src fuel ops h = Ok h' -> hist_fresh src fuel (seen ++ ops) h0 -> hinv seen h -> hinv (seen ++ ops) h'.
+  Proof.
+    induction ops as [|op ops IH]; intros seen h h' Hs H Hf Hi; cbn [run_hist] in H.
     - injection H as <-. now rewrite app_nil_r.
-    - destruct (run_hop src fuel op h) as [e|h1] eqn:E; [|discriminate]. cbn [forallb] in Hc.
-      apply andb_true_iff in Hc. destruct Hc as [Hc1 Hc2].
-      pose proof (hop_step seen op h _ E Hc1 Hi) as Hi1.
-      specialize (IH _ _ _ H Hc2 Hi1). now rewrite <- app_assoc in IH.
+    - destruct (run_hop src fuel op h) as [h1|e] eqn:E; [|discriminate].
+      assert (Hi1 : hinv (seen ++ [op]) h1).
+      { eapply hop_step; [exact E| |exact Hi]. intros s m ->. eapply (Hf seen s m ops eq_refl). exact Hs. }
+      pose proof (run_hist_snoc _ _ _ _ _ Hs E) as Hs1.
+      replace (seen ++ op :: ops) with ((seen ++ [op]) ++ ops) in * by (now rewrite <- app_assoc).
+      eapply IH; eassumption.
   Qed.
 End Hist.
 
 Lemma hist_values : hist_values_stmt.
 Proof.
-  intros src fuel ops next0 h H Hc t v Hin.
+  intros src fuel ops next0 h H Hf t v Hin.
   assert (H0 : hinv src [] (hinit next0)).
-  { split; [apply inv_init|split]; cbn [hinit hres hputs]; [intros v0 []|intros t0 v0 []]. }
-  destruct (hist_run src fuel ops [] _ _ H Hc H0) as [_ [_ Hp]]. exact (Hp t v Hin).
+  { split; [exists []; split; [intros x; tauto|apply inv_init]|split]; cbn [hinit hres hputs]; [intros v0 []|intros t0 v0 []]. }
+  destruct (hist_run src fuel (hinit next0) ops [] _ _ eq_refl H Hf H0) as [_ [_ Hp]]. exact (Hp t v Hin).
 Qed.
